@@ -278,6 +278,7 @@ func init() {
 			acRebuildCases(add)
 			acCachedCases(add)
 			acJoinedDictionaries(add)
+			acLongListsShared(add)
 			acSecondBuild(add)
 			for i := 0; i < n; i++ {
 				acTwoPatternFields = i%4 == 1 || i%4 == 3 // two pattern fields: each must keep its own keywords
@@ -423,6 +424,43 @@ func acSecondBuild(add func(in interface{})) {
 				c.Queries = append(c.Queries, eQuery{A: []eAssign{{F: 1, V: tvStr(t)}}}, eQuery{A: []eAssign{{F: 1, V: tvStr(t)}, {F: 0, V: tvInt("int", 1)}}})
 			}
 			add(c)
+		}
+	}
+}
+
+// acLongListsShared: an expression listing 8..12 keywords that are new to its holder, then later conjunctions of the
+// same holder that re-list one of them each (first, middle, last but one, last), as include and as exclude; every
+// keyword is then queried alone (one-entry posting lists cut from one block must not grow into their neighbours)
+func acLongListsShared(add func(in interface{})) {
+	words := []string{"apple", "banana", "cherry", "grape", "lemon", "mango", "peach", "plum", "quince", "raisin", "sloe", "tangerine"}
+	kw := func(inc bool, ss ...string) eExpr {
+		l := make([]TV, len(ss))
+		for i, s := range ss {
+			l[i] = tvStr(s)
+		}
+		return eExpr{F: 1, Inc: inc, V: tvSlice("[]string", l...)}
+	}
+	tag := eExpr{F: 0, Inc: true, V: tvSlice("[]int", tvInt("int", 1))}
+	for _, kind := range []string{"kgroups", "compact"} {
+		for _, n := range []int{8, 9, 12} {
+			for _, withTag := range []bool{true, false} {
+				c := eCase{Kind: kind, Policy: "error", Configs: map[int]string{1: "ac_matcher"}}
+				mk := func(id int64, e eExpr) eDoc {
+					if withTag {
+						return eDoc{ID: id, Cons: []eConj{{tag, e}}}
+					}
+					return eDoc{ID: id, Cons: []eConj{{e}}}
+				}
+				c.Docs = append(c.Docs, mk(1, kw(true, words[:n]...)))
+				for i, k := range []int{0, n / 2, n - 2, n - 1} {
+					c.Docs = append(c.Docs, mk(int64(2+i), kw(true, words[k])))
+				}
+				c.Docs = append(c.Docs, eDoc{ID: 9, Cons: []eConj{{tag, kw(false, words[1])}}}, mk(10, kw(true, words[2], "zucchini")))
+				for _, w := range append(append([]string{}, words[:n]...), "zucchini", "none") {
+					c.Queries = append(c.Queries, eQuery{A: []eAssign{{F: 0, V: tvInt("int", 1)}, {F: 1, V: tvStr("fresh " + w + " juice")}}})
+				}
+				add(c)
+			}
 		}
 	}
 }
